@@ -103,9 +103,17 @@ func hashBytes(b []byte) uint64 {
 	return h.Sum64()
 }
 
-type ofParser struct{}
+// ofParser is the parser handed to the stream (openflow13.Parse). When seen is set it records the
+// frames it was asked to parse: a frame a parser goroutine has taken and parsed belongs to the
+// consumer, whatever happens to the connection afterwards.
+type ofParser struct{ seen *[][]byte }
 
-func (ofParser) Parse(b []byte) (util.Message, error) { return of.Parse(b) }
+func (p ofParser) Parse(b []byte) (util.Message, error) {
+	if p.seen != nil {
+		*p.seen = append(*p.seen, append([]byte{}, b...))
+	}
+	return of.Parse(b)
+}
 
 // streamDigest maps values travelling through the stream's channels to numbers (state key).
 func streamDigest(v any) uint64 {
@@ -229,6 +237,7 @@ type streamRun struct {
 	got       []delivered
 	submitted [][][]byte // per producer, the encodings submitted in order
 	prodDone  int
+	parsed    [][]byte // the frames the stream handed to its parser, in order
 }
 
 func policyPrio(policy string) func(name string) int {
@@ -307,7 +316,8 @@ func newStreamExplorer(sc streamScenario, alphabet []streamFrame, outAlphabet []
 		run.ms = nil
 	}
 	e.Body = func() {
-		ms := util.NewMessageStream(run.conn, ofParser{})
+		run.parsed = nil
+		ms := util.NewMessageStream(run.conn, ofParser{seen: &run.parsed})
 		run.ms = ms
 		verifrt.NameChan(ms.Inbound, 1)
 		verifrt.NameChan(ms.Outbound, 2)
